@@ -8,6 +8,7 @@ Exact requests (`Rat`): `cosang`, `eucl2`, `gridnn`, `rect`, `convlon`, `maxld`,
 `geodist`, `geocum`, `nbawc`, `maxnbawc`, `geomdd`, `linkdd` (round 3).
 Floating requests (`Float`, answers as IEEE-754 bit patterns): `angdist`,
 `eucld`, `geonn`, `weights`, `awc`.
+Round 5: `gridnnf` / `gridnnf32` — `Grid.node_number` in `Float` / `Float32` (decision compared).
 Round 4: `angdist` / `eucld` answer through the object-level models `gridDistance` (a `GeoGrid`
 built from `lat`, `lon`) and `gridEuclideanDistance` (a `Grid` holding an array of shape
 `(d, n)`); exact requests `eucobj2` (object level, squared), `cwd`, `tld`, `georect`. -/
@@ -24,6 +25,9 @@ def showFloats (xs : List Float) : String :=
   if xs.isEmpty then "-" else join (xs.map fun x => toString x.toBits)
 def showFloatMat (m : List (List Float)) : String :=
   if m.isEmpty then "-" else join (m.map showFloats) ";"
+
+/-- single precision: every float32 value is a double, and `toFloat32` is exact on it -/
+def toF32 (r : Rat) : Float32 := (toF r).toFloat32
 
 def trigF : Trig Float where
   sin := Float.sin
@@ -75,6 +79,13 @@ def answer (toks : List String) : String :=
   -- `Grid.node_number`; `sqrt` replaced by the identity (theorem `gridNodeNumber_mono`)
   | ["gridnn", d, n, x, q] =>
       showOptNat (gridNodeNumber id (mat (ratMat x)) (vec (rats q)) d.toNat! n.toNat!)
+  -- round 5: `Grid.node_number` evaluated in IEEE double / single arithmetic in the order of the
+  -- source (`diff = space.T - x`, `diff**2`, `np.sum(axis=1)` as a left fold, `np.sqrt`, `argmin`)
+  | ["gridnnf", d, n, x, q] =>
+      showOptNat (gridNodeNumber Float.sqrt (mat (floatMat x)) (vec (floats q)) d.toNat! n.toNat!)
+  | ["gridnnf32", d, n, x, q] =>
+      showOptNat (gridNodeNumber Float32.sqrt (mat ((ratMat x).map (·.map toF32)))
+        (vec ((rats q).map toF32)) d.toNat! n.toNat!)
   | ["rect", axes] =>
       let r := rectGrid (intMat axes)
       if r.isEmpty then "-" else join (r.map showOptInts) ";"
